@@ -316,3 +316,24 @@ package enginetest
 //@   requires limit < 1000
 //@ func okNewGaugeComplete
 //@   requires limit < 1000
+//@ protect tally.{count} guarded_by tally.mu
+//@ racestrict tally
+//@ inv tally.mu T1 [C92] := this.count >= 0
+//@ func (t *tally) okBumpOld
+//@   requires t != nil
+//@   ensures [C92.x] t.count >= old(t.count)
+//@ func (t *tally) badBumpEntry_ensures
+//@   requires t != nil
+//@   ensures [C92.x] t.count >= entry(t.count)
+//@ func (t *tally) okNotesUnderLock
+//@   requires t != nil
+//@ func (t *tally) badNotesWithoutLock_undeclared
+//@   requires t != nil
+//@ func values
+//@   ensures len(result) == 3 && result[0] == 1 && result[1] == 2 && result[2] == 3
+//@ func okRangedSum
+//@   ensures [C92.x] result == 3
+//@   loop 1 invariant len($ranged(1)) == 3 && $ranged(1)[0] == 1 && $ranged(1)[1] == 2 && $ranged(1)[2] == 3 && s == $i + 1 && $i <= 2
+//@ func badRangedSum_ensures
+//@   ensures [C92.x] result == 3
+//@   loop 1 invariant len($ranged(1)) == 3 && $ranged(1)[0] == 1 && $ranged(1)[1] == 2 && $ranged(1)[2] == 3 && s <= $i + 1 && $i <= 2
